@@ -50,6 +50,7 @@ struct World {
   long plain_counter = 0;  // C04: only ordered by the executor's own happens-before (strand cells)
   u64 stop2_call = 0, stop2_ret = 0;  // Stop() issued after SoftStop()
   std::atomic<int> alive_after_stop{0};
+  std::atomic<int> drop_during_call{0};
   bool serial = false;      // strand: jobs must not overlap
   std::atomic<u64> wait_returned{0};
   std::atomic<int> after_wait{0};
@@ -99,6 +100,11 @@ void MJob::Call() noexcept {
 void MJob::Drop() noexcept {
   dropped_at = Stamp();
   drops.fetch_add(1, kRlx);
+  if (w->serial && w->inside.load(kRlx) != 0) {
+    // a strand job is being Called right now: finishing another job of the same strand (here by Drop) at the same
+    // time means two jobs of the strand are processed concurrently
+    w->drop_during_call.fetch_add(1, kRlx);
+  }
   if (child != nullptr) {
     // what a dropped continuation does: it runs inside Drop(), asks the executor whether it is alive and hands the
     // next step to it (which is refused and dropped in turn); the executor must be re-entrant here
@@ -357,6 +363,9 @@ void StrandCase(Ctx& ctx, int base_kind, bool over_strand) {
       last_seq[j->submitter] = j->seq;
     }
   }
+  ctx.Check(w.drop_during_call.load(kRlx) == 0, "drop-overlaps-call", "C07",
+            "%d times a job of the strand was Dropped while another job of the same strand was inside Call()",
+            w.drop_during_call.load(kRlx));
   CheckOrder(ctx, w, "submission-order", "C07");
   long called = 0;
   for (auto& j : w.jobs) {
